@@ -148,3 +148,41 @@ def check_crop_hi(m):
         if not (c.WP >= 0 and c.fCO2 >= 0 and 0 <= c.WPy <= 100): bad("wp")
         if not _taw_samples(ps, c, float(c.Zmin)): bad("TawOK_sampled")
     return out
+
+
+def check_def_ok(m):
+    """the conditions DefOK of the run-completion theorem (RunCompletesP.run_from_init_completes), evaluated on this initialised model:
+    names of those that FAIL (a configuration on which they all hold is one to which the theorem 'the run does not stop at a raising day' applies)"""
+    ps = m._param_struct; cs = m._clock_struct
+    P = ps.Soil.Profile; soil = ps.Soil
+    dzsum = np.asarray(P.dzsum, float); n = len(dzsum)
+    out = []
+    if int(ps.water_table) != 0: out.append("do_wt")
+    zmax_ev = float(soil.evap_z_max); zmin_ev = float(soil.evap_z_min)
+    if not (zmin_ev <= zmax_ev and int(np.sum(dzsum < zmax_ev + 0.001)) + 2 <= n): out.append("do_evap")
+    if not np.any(dzsum >= float(soil.z_germ)): out.append("do_germ")
+    if not dzsum[0] <= round(float(soil.z_top), 2) + 1e-12: out.append("do_top")
+    w = np.asarray(m._weather)
+    if not np.all(w[:, 2].astype(float) >= 0): out.append("do_rain")
+    if not np.all(w[:, 3].astype(float) > 0): out.append("do_et0")
+    for k, c in enumerate(ps.Seasonal_Crop_List):
+        def bad(name): out.append("crop%d.%s" % (k, name))
+        if int(c.GDDmethod) not in (1, 2, 3): bad("do_gdd")
+        if int(c.CalendarType) not in (1, 2): bad("do_cal")
+        if float(c.SxBot) == 0: bad("do_sxbot")
+        if not np.any((dzsum >= float(c.Zmax)) & (dzsum >= round(float(c.Zmax), 2))): bad("do_deep")
+        if int(c.TrColdStress) not in (0, 1) or int(c.ETadj) != 1: bad("do_tr")
+        if int(c.PolHeatStress) not in (0, 1) or int(c.PolColdStress) not in (0, 1): bad("do_pol")
+        if int(c.CropType) not in (1, 2, 3): bad("do_type")
+        if not (int(c.Determinant) == 1 or float(c.YldFormCD) != 0): bad("do_yld")
+    for irr, tag in ((ps.IrrMngt, "irr"), (ps.FallowIrrMngt, "fallow_irr")):
+        meth = int(irr.irrigation_method)
+        ok = 0 <= meth <= 5 and (meth != 1 or len(np.atleast_1d(irr.SMT)) == 4) and (meth != 2 or float(irr.IrrInterval) != 0)
+        if meth == 3:
+            sch = np.asarray(irr.Schedule, float)
+            ok = ok and len(sch) >= len(cs.time_span) - 1 and bool(np.all(sch >= 0))
+        if not ok: out.append("do_irr." + tag)
+        if not float(irr.AppEff) >= 0: out.append("do_eff." + tag)
+    layers = sorted(set(int(x) for x in np.asarray(P.Layer)))
+    if layers != list(range(1, len(layers) + 1)): out.append("do_restrict")
+    return out
